@@ -53,7 +53,7 @@ def drive_case(c, lib, worker, want, guard="none", tag="", be=False):
     """Runs the C API on every value of the case and records events."""
     t = c.prog["rtype"]
     ev = c.events
-    top = c.prog["top"]
+    top = lib.top
     if "widths" in want:
         ev.append({"ev": "CWidths", "w": lib.widths()})
         c.event_src.append(-1)
